@@ -34,7 +34,7 @@ TEXT = {
  "C06": "Static decision of the exclusion clause only: text can reach a cue only under PID / stream-id / data-unit-id / framing / Hamming / magazine / receiving / row-range / start-box / parity guards; table well-formedness and the colour-code table. Page scheduling, timing and termination behaviour are not decided.",
  "C16": "Static decision of the agreement clauses: per format writer separator ∈ reader separators, millisecond scale 3, 2 or 3 written digits, each codec uses its own wrappers, STL formatter and parser share the frame-rate field. Truncation, canonical fields, monotonicity and the 30 fps frame loss are value-level and not decided.",
  "C07": "Static decision of the structural clauses of any-to-any conversion: dispatch tables of Open/Write agree, are case-insensitive and default to the invalid-extension error; writers refuse an empty list before writing; the CLI table equals the documented one; writers tolerate every optional part other readers leave unset (no unguarded dereference in the writers' closure). Cue preservation across format pairs is not decided.",
- "C08": "Static all-paths decision, over the closure of the six readers, Open, the five writers and the exported helpers, that none of the panic classes Go code can raise itself (nil dereference, nil-map store, index/slice out of range, integer division by zero, failing single-result type assertion, explicit panic/Fatal) is reachable, modulo 13 audited residue sites each with a written reason (some backed by supporting rules), and that every loop has a progress argument. Panics inside dependencies, memory exhaustion and the linear-time bound are not decided.",
+ "C08": "Static all-paths decision, over the closure of the six readers, Open, the five writers and the exported helpers, that none of the panic classes Go code can raise itself (nil dereference, nil-map store, index/slice out of range, integer division by zero, failing single-result type assertion, explicit panic/Fatal) is reachable, modulo 12 audited residue sites each with a written reason (some backed by supporting rules), and that every loop has a progress argument. Panics inside dependencies, memory exhaustion and the linear-time bound are not decided.",
  "C09": "Static all-paths decision of necessary structural clauses of Add: writes only StartAt, EndAt and the item slice; both boundaries get the same update; the in-place deletion rewinds the index; CLI sync → Add(-s). The arithmetic (exact d, clamp, which cues die) is not decided.",
  "C10": "Static decision of necessary structural clauses of Fragment: frame; new pieces are whole copies; Order() after every insertion; CLI. Where the cuts fall is not decided (the known last-listed-cue fault stays invisible).",
  "C11": "Static decision of necessary structural clauses of Unfragment: frame; delete-rewind; Order() before the scan; same text function on both cues reading every run. Merge semantics and the inverse law are not decided.",
@@ -196,6 +196,27 @@ TEXT_ADD6 = {
  "C15": " The CLI refuses no slope the library accepts.",
  "C16": " Timestamps of 24 h and more are read back; writers truncate, never round to nearest.",
 }
+TECH_ADD7 = {
+ "C01": "writers store nothing into their copy of an element",
+ "C02": "writers store nothing into their copy of an element (a voice name is not blanked because of the previous line)",
+ "C03": "a splitting loop built on strings.Cut consults whether the separator was found; writers store nothing into their copy of an element",
+ "C04": "Subtitles.Styles is complete before the first lookup in the reader; writers store nothing into their copy of an element",
+ "C05": "GSI reader layout followed through fields filled by address and rows of local tables; writers store nothing into their copy of an element",
+ "C06": "the PID returned by teletextPID is not computed from a map iteration or a sorted slice",
+ "C07": "writers store nothing into their copy of an element; a loop over a table of the program grants nothing to the writer loop around it",
+ "C08": "non-nil fields of private struct types that only exist as fully initialised literals; stores through a pointer parameter resolved to the field whose address is passed; value-position && and || in numeric facts",
+ "C14": "Duration returns zero or a loaded Item.EndAt selected by comparisons only",
+ "C17": "io.ReadAtLeast accepted only with the buffer length as minimum",
+ "C18": "the io.EOF of io.ReadFull handed on unchanged by any library helper is the accepted end-of-blocks conversion",
+}
+TEXT_ADD7 = {
+ "C02": " Each line keeps its own voice name when written.",
+ "C03": " A <br/> at the end of a run still starts a line.",
+ "C04": " A style is found whatever the order of the sections.",
+ "C06": " The teletext PID chosen is the first the PMT lists, not the lowest.",
+ "C14": " Duration is the end of a cue exactly as stored.",
+ "C17": " A block cut by a short read is not taken for a truncated one.",
+}
 for k, v in TECH_ADD.items():
     TECH[k] += "; " + v
 for k, v in TEXT_ADD.items():
@@ -219,6 +240,10 @@ for k, v in TEXT_ADD5.items():
 for k, v in TECH_ADD6.items():
     TECH[k] += "; " + v
 for k, v in TEXT_ADD6.items():
+    TEXT[k] += v
+for k, v in TECH_ADD7.items():
+    TECH[k] += "; " + v
+for k, v in TEXT_ADD7.items():
     TEXT[k] += v
 NOTE = "Assumes P0 (non-nil receivers/arguments), P1 (non-nil model elements, map keys = IDs), library contracts in internal/chk/contracts.go, and the fidelity of go/ssa + VTA (x/tools v0.29.0). Audited residue entries in rules/residue.txt are trusted."
 props = [json.loads(l) for l in open("/verif/properties.jsonl")]
